@@ -623,11 +623,19 @@ class eval_abs(object):
             rez |= (v & ((1<<(stop-start))-1)) << start
         return ExprInt(tab_uintsize[size](rez & ((1<<size)-1)))
 
+    def mem_addr(self, a):
+        # the cells of the machine have 32-bit addresses: an effective
+        # address computed under the 16-bit address size is zero extended
+        if a.get_size() != 16:
+            return a
+        return expr_simp(ExprCompose([(a, 0, 16), (ExprInt(uint16(0)), 16, 32)]))
+
     def eval_ExprMem(self, e, eval_cache = None):
         if eval_cache is None:
             # (a default dictionary would be shared by every machine)
             eval_cache = {}
         a_val = expr_simp(self.eval_expr(e.arg, eval_cache))
+        a_val = self.mem_addr(a_val)
         if isinstance(a_val, ExprTop):
             #XXX hack test
             ee =   ExprMem(e.arg, e.size)
@@ -939,7 +947,7 @@ class eval_abs(object):
             src = self.eval_expr(e.src, eval_cache)
             if isinstance(e.dst, ExprMem):
                 a = self.eval_expr(e.dst.arg, eval_cache)
-                a = expr_simp(a)
+                a = self.mem_addr(expr_simp(a))
                 #search already present mem
                 tmp = None
                 #test if mem lookup is known
